@@ -261,3 +261,14 @@ package executor
 //@     set has = ret0 < ret1
 //@   call trans.updatePrevValuesFunc[i]
 //@     requires [carry_only_if_the_last_group_has_a_value] has
+
+// ---- decoding the inputs of a pushed-down plan node: every input is decoded with ITS OWN options object (the decoded
+// schema keeps the pointer): an object allocated before the input's buffer was read is shared with an earlier input,
+// whose schema would silently turn into this one's (the left side of a join reading the right side's measurement).
+//@ prop C12
+//@ func unmarshalNodes
+//@   ghost mark int = 0
+//@   call proto.Unmarshal
+//@     set mark = allocmark()
+//@   call (*ProcessorOptions).UnmarshalBinary
+//@     requires [options_object_allocated_for_this_input] objid(recv) > mark
